@@ -95,3 +95,4 @@ theorem msmpprecrypt_rejects (v oldsec newsec oldauth newauth : Bytes)
   unfold msmpprecrypt; rw [msmppLen_guard md5 hmd5, h]; simp
 
 end Rsp.Props.C03
+
